@@ -211,6 +211,40 @@ fn token_garbage_is_absent() {
     core::mem::forget(header);
 }
 
+// @harness token_trailing_bytes_is_absent props=C14,C03 tier=quick kind=proof timeout=900 fn="IncomingToken::from_header, Token::decode" desc="a genuine token (Retry or NEW_TOKEN, fresh, presented from the issuing address) whose authenticated payload carries one extra byte after the last field is undecodable: treated as absent (Ok, unvalidated), the replay log is not consulted, never an error"
+#[cfg_attr(kani, kani::proof)]
+#[cfg_attr(kani, kani::unwind(70))]
+#[cfg_attr(verif_replay, test)]
+fn token_trailing_bytes_is_absent() {
+    let log = Arc::new(CountingLog { accept: true, calls: AtomicU32::new(0) });
+    let cfg = config(1_000, 15, 1000, log.clone());
+    let address = SocketAddr::new(IpAddr::V4(std::net::Ipv4Addr::new(192, 0, 2, 7)), 0x1234);
+    let odcid_bytes = [1u8, 2, 3, 4, 5, 6, 7, 8];
+    let (wire, n) = if vk::any() { retry_wire(address, &odcid_bytes, 999, 7) } else { validation_wire(address.ip(), 999, 7) };
+    // payload ++ [extra] ++ nonce: the nonce is the last 16 bytes of a token
+    let mut raw = [0u8; 66];
+    let mut i = 0;
+    while i < n - 16 {
+        raw[i] = wire[i];
+        i += 1;
+    }
+    raw[n - 16] = vk::any();
+    let mut j = 0;
+    while j < 16 {
+        raw[n - 15 + j] = wire[n - 16 + j];
+        j += 1;
+    }
+    let dst = ConnectionId::new(&[9; 8]);
+    let header = InitialHeader { dst_cid: dst, src_cid: ConnectionId::new(&[8; 8]), token: Bytes::copy_from_slice(&raw[..n + 1]), number: crate::packet::PacketNumber::U8(0), version: 1 };
+    match IncomingToken::from_header(&header, &cfg, address) {
+        Ok(t) => assert!(!t.validated && t.retry_src_cid.is_none() && t.orig_dst_cid == dst, "a token with trailing bytes must be treated as absent"),
+        Err(_) => panic!("a token with trailing bytes must not end the attempt"),
+    }
+    assert!(log.calls.load(Ordering::Relaxed) == 0);
+    core::mem::forget(cfg);
+    core::mem::forget(header);
+}
+
 // @harness token_encode_layout props=C14,C10 tier=quick kind=proof timeout=900 fn="Token::encode" desc="the wire layout the decision harnesses feed to from_header is exactly what Token::encode produces (identity AEAD) - checked on one Retry token (IPv4) and one NEW_TOKEN token (IPv6) with distinct field values; ties the harness-built wire images to the real encoder"
 #[cfg_attr(kani, kani::proof)]
 #[cfg_attr(kani, kani::unwind(70))]
